@@ -233,7 +233,7 @@ def pReadEvs (s : String) : Option (List ReadEv) :=
   (s.splitOn ",").foldr (fun t acc =>
     match acc with
     | none => none
-    | some l => if t = "E" then some (List.replicate 64 .eof ++ l) else (pReadEv t).map (· :: l)) (some [])
+    | some l => if t = "E" then some (List.replicate 256 .eof ++ l) else (pReadEv t).map (· :: l)) (some [])
 
 def pWriteEv (s : String) : Option WriteEv :=
   match s.toList with
